@@ -836,3 +836,42 @@ def run_many(sc):
             wrong.append([i, 'foreign'])
     return {'n': sc['n'], 'distinct_ids': len(set(ids)), 'wrong': wrong[:5], 'n_wrong': len(wrong), 'listener_errors': listener_errors[:3],
             'stale_done': sum(1 for i in range(sc.get('stale', 0)) if rpcs[i].event.is_set())}
+
+
+@connect_restoring_ids
+def run_stderr(case):
+    """SSH: `before` requests, then the subsystem writes `octets` octets to its stderr, then `after` requests (timeout 3 s each)."""
+    caps = [c for c in FS.STD_CAPS if case['base11'] or c != FS.B11]
+    srv = FS.SshServer(caps=caps)
+    res = {'failed': [], 'foreign': None}
+    m = None
+    try:
+        m = srv.connect(timeout=5)
+        m.timeout = 3
+        for i in range(case['before']):
+            try:
+                m.get()
+            except Exception as e:
+                res['failed'].append(['before-%d' % i, exc_name(e)])
+        srv.chan.sendall_stderr(b'W' * (case['octets'] - 1) + b'\n')
+        time.sleep(0.3)
+        for i in range(case['after']):
+            try:
+                r = m.get()
+                if 'WWW' in r.xml:
+                    res['foreign'] = r.xml[:80]
+            except Exception as e:
+                res['failed'].append(['after-%d' % i, exc_name(e)])
+        res['server_requests'] = len(srv.requests)
+        return res
+    except Exception as e:
+        res['failed'].append(['connect', exc_name(e)])
+        res['server_requests'] = len(srv.requests)
+        return res
+    finally:
+        try:
+            if m is not None:
+                m._session.close()
+        except Exception:
+            pass
+        srv.cleanup()
